@@ -1102,6 +1102,56 @@ func init() {
 		})
 	})
 	extra["C18"] = append(extra["C18"], func(c *core.Ctx, r *core.Report) {
+		rule(r, "C18.R7", "the next schedule takes over its start delay after the current one was started: every timer the runner arms is armed with the start-delay field of a schedule of its list (the Schedule field that does not feed the ticker), read when the timer is armed — not with a time computed from an earlier anchor", func() {
+			rpkg := core.ModPath + "/internal/raterun"
+			// the ticker's field, by use
+			tickerFld := map[*types.Var]bool{}
+			var arms []*ssa.Call
+			for _, fn := range c.AllFuncs {
+				if core.RelPkg(fn) != "internal/raterun" {
+					continue
+				}
+				for _, ci := range an.AllCalls(fn) {
+					call, ok := ci.(*ssa.Call)
+					if !ok {
+						continue
+					}
+					t := an.Callee(call)
+					if t == nil || t.Pkg == nil || t.Pkg.Pkg.Path() != "time" {
+						continue
+					}
+					switch {
+					case t.Name() == "NewTicker" || (t.Name() == "Reset" && t.Signature.Recv() != nil && an.IsNamed(t.Signature.Recv().Type(), "time", "Ticker")):
+						arg := call.Call.Args[len(call.Call.Args)-1]
+						if f, owner := an.TerminalField(an.RootFV(fn, arg).Resolve(nil).V); f != nil && an.IsNamed(owner, rpkg, "Schedule") {
+							tickerFld[f] = true
+						}
+					case t.Name() == "NewTimer" || (t.Name() == "Reset" && t.Signature.Recv() != nil && an.IsNamed(t.Signature.Recv().Type(), "time", "Timer")):
+						arms = append(arms, call)
+					}
+				}
+			}
+			for _, call := range arms {
+				fn := call.Parent()
+				arg := call.Call.Args[len(call.Call.Args)-1]
+				rv := an.RootFV(fn, arg).Resolve(nil).V
+				f, owner := an.TerminalField(rv)
+				ok := f != nil && an.IsNamed(owner, rpkg, "Schedule") && !tickerFld[f]
+				if ok {
+					// of an element of a list
+					if fa, isFA := an.Terminal(rv).(*ssa.FieldAddr); isFA {
+						if _, isIA := an.Strip(fa.X).(*ssa.IndexAddr); !isIA {
+							ok = false
+						}
+					}
+				}
+				r.Check(ok, core.FuncName(fn)+"#timer-delay", an.Pos(c, call), "armed with a schedule's start delay", "a timer is armed with "+an.D().Of(arg)+", not with the start delay of a schedule of the list: the next schedule does not take over its start delay after the current one started (for instance when the runner is started some time after it was built)")
+			}
+			r.Floor("timers armed by the runner", len(arms), 2)
+			r.Floor("schedule fields feeding the ticker", len(tickerFld), 1)
+		})
+	})
+	extra["C18"] = append(extra["C18"], func(c *core.Ctx, r *core.Report) {
 		rule(r, "C18.R6", "a Restart is never lost or skipped: it is delivered with a plain blocking send on the restart channel, and the restart arm reaches the schedule selector with 0 unconditionally (no test of the current index on the way)", func() {
 			restartDelivery(c, r)
 		})
